@@ -33,6 +33,7 @@ type FuncSpec struct {
 	Inline  int   `json:"inline,omitempty"`
 	JSON    bool  `json:"json,omitempty"`
 	NeedContract bool `json:"need_contract,omitempty"`
+	RecvNonNil   bool `json:"recv_nonnil,omitempty"`
 }
 
 // Bounded is a labelled bounded stand-in (never counted as proved).
@@ -122,7 +123,7 @@ func CmdCheck(args []string) int {
 	}
 	pk := ps.Packages
 	if len(pk) == 0 {
-		pk = []string{"./..."}
+		pk = DefaultPkgs
 	}
 	w, err := Load(*repo, pk...)
 	if err != nil {
@@ -176,7 +177,7 @@ func CmdCheck(args []string) int {
 			if j.spec.Safety != nil {
 				safety = *j.spec.Safety
 			}
-			opt := Options{Safety: safety, LockBalance: j.spec.Locks, Covers: true, AutoInline: j.spec.Inline, JSONShape: j.spec.JSON}
+			opt := Options{Safety: safety, LockBalance: j.spec.Locks, Covers: true, AutoInline: j.spec.Inline, JSONShape: j.spec.JSON, RecvNonNil: j.spec.RecvNonNil}
 			j.fr = Generate(w, fn, opt)
 		}(j)
 	}
